@@ -267,3 +267,237 @@ Theorem root_keeps_history fuel p hist tt r :
 Proof. unfold root. intros H. apply root_loop_hist in H. exact H. Qed.
 
 End Hist.
+
+(* ------------------------------------------------------------------ what a search leaves unchanged besides the
+   history: the table length and the iteration depth recorded in the statistics (C14, C16) *)
+Definition K (s s' : SS) : Prop :=
+  t_len (ss_tt s') = t_len (ss_tt s) /\ st_depth (ss_stats s') = st_depth (ss_stats s).
+
+Lemma K_refl s : K s s. Proof. split; reflexivity. Qed.
+Lemma K_trans a b c : K a b -> K b c -> K a c.
+Proof. intros [H1 H2] [H3 H4]. split; congruence. Qed.
+
+Lemma q_loop_depth rec p beta ply
+  (Hrec : forall c st a b pl v st', rec c st a b pl = Some (v, st') -> st_depth st' = st_depth st) :
+  forall ms st alpha best v st', q_loop rec p beta ply ms st alpha best = Some (v, st') -> st_depth st' = st_depth st.
+Proof.
+  induction ms as [|m ms IH]; intros st alpha best v st' H; cbn [q_loop] in H.
+  - apply some_pair_snd in H. rewrite <- H. reflexivity.
+  - destruct (rec (makemove false p m) (bump_nodes st) (- beta) (- alpha) (ply + 1)) as [[vc stc]|] eqn:E; [|discriminate].
+    apply Hrec in E. cbn zeta in H.
+    destruct (beta <=? _) in H.
+    + apply some_pair_snd in H. rewrite <- H. rewrite E. reflexivity.
+    + apply IH in H. rewrite H, E. reflexivity.
+Qed.
+
+Lemma qsearch_depth : forall fuel p st a b ply v st', qsearch fuel p st a b ply = Some (v, st') -> st_depth st' = st_depth st.
+Proof.
+  induction fuel as [|f IH]; intros p st a b ply v st' H; [discriminate|].
+  cbn [qsearch] in H. destruct (b <=? eval p).
+  - apply some_pair_snd in H. rewrite <- H. reflexivity.
+  - apply (q_loop_depth (qsearch f) p b ply IH) in H. rewrite H. reflexivity.
+Qed.
+
+Section Keep.
+Variable stopf : Stats -> bool.
+
+Definition keepsK (rec : Position -> SS -> Z -> Z -> Z -> Z -> bool -> option (Z * SS)) : Prop :=
+  forall p s a b ply d cn v s', rec p s a b ply d cn = Some (v, s') -> K s s'.
+
+Lemma search_move_K rec p in_chk beta ply depth idx m np s alpha score s' :
+  keepsK rec -> search_move rec p in_chk beta ply depth idx m np s alpha = Some (score, s') -> K s s'.
+Proof.
+  intros Hk H. unfold search_move in H. destruct (idx =? 0).
+  - destruct (rec np s (- beta) (- alpha) (ply + 1) (depth - 1) true) as [[v s1]|] eqn:E; [|discriminate].
+    apply some_pair_snd in H. rewrite <- H. apply (Hk _ _ _ _ _ _ _ _ _ E).
+  - match type of H with match ?r with _ => _ end = _ => destruct r as [[v s1]|] eqn:E; [|discriminate] end.
+    pose proof (Hk _ _ _ _ _ _ _ _ _ E) as H1. cbn zeta in H.
+    destruct ((alpha <? - v) && (- v <? beta)).
+    + destruct (rec np s1 (- beta) (- alpha) (ply + 1) (depth - 1) true) as [[v2 s2]|] eqn:E2; [|discriminate].
+      apply some_pair_snd in H. rewrite <- H. eapply K_trans; [exact H1|apply (Hk _ _ _ _ _ _ _ _ _ E2)].
+    + apply some_pair_snd in H. rewrite <- H. exact H1.
+Qed.
+
+Lemma n_loop_K rec p in_chk beta ply depth : keepsK rec ->
+  forall ms idx s alpha best bm r,
+  n_loop rec p in_chk beta ply depth ms idx s alpha best bm = Some r -> K s (snd r).
+Proof.
+  intros Hk. induction ms as [|m ms IH]; intros idx s alpha best bm r H; cbn [n_loop] in H.
+  - injection H as <-. apply K_refl.
+  - match type of H with match ?x with _ => _ end = _ => destruct x as [[score s1]|] eqn:E; [|discriminate] end.
+    apply search_move_K in E; [|exact Hk]. cbn zeta in H.
+    assert (Hp : K s (pop_hist s1)).
+    { destruct E as [E1 E2]. split; cbn in *; [exact E1|exact E2]. }
+    destruct (best <? score); destruct (beta <=? _) in H.
+    + injection H as <-. exact Hp.
+    + apply IH in H. eapply K_trans; eassumption.
+    + injection H as <-. exact Hp.
+    + apply IH in H. eapply K_trans; eassumption.
+Qed.
+
+Lemma null_move_K rec p s is_root cn in_chk beta ply depth r s' : keepsK rec ->
+  null_move rec p s is_root cn in_chk beta ply depth = Some (r, s') -> K s s'.
+Proof.
+  intros Hk H. unfold null_move in H.
+  destruct (negb is_root && cn && (2 <? depth) && negb in_chk && negb (is_endgame p)).
+  - match type of H with match ?x with _ => _ end = _ => destruct x as [[v s1]|] eqn:E; [|discriminate] end.
+    apply Hk in E. cbn zeta in H.
+    assert (Hp : K s (pop_hist s1)) by (destruct E as [E1 E2]; split; cbn in *; assumption).
+    destruct (beta <=? - v); apply some_pair_snd in H; rewrite <- H; exact Hp.
+  - apply some_pair_snd in H. rewrite <- H. apply K_refl.
+Qed.
+
+Lemma nm_finish_K p ao beta ply depth in_chk best bm s v s' :
+  nm_finish p ao beta ply depth in_chk best bm s = Some (v, s') -> K s s'.
+Proof.
+  unfold nm_finish. destruct bm as [bmv|].
+  - unfold tt_add, t_add, get_idx. destruct (t_len (ss_tt s) =? 0)%N; [discriminate|].
+    intros H. apply some_pair_snd in H. rewrite <- H. split; reflexivity.
+  - intros H. apply some_pair_snd in H. rewrite <- H. apply K_refl.
+Qed.
+
+Lemma nm_moves_K rec p s ao alpha beta ply depth in_chk is_root cn ttm v s' : keepsK rec ->
+  nm_moves rec p s ao alpha beta ply depth in_chk is_root cn ttm = Some (v, s') -> K s s'.
+Proof.
+  intros Hk H. unfold nm_moves in H.
+  destruct (null_move rec p s is_root cn in_chk beta ply depth) as [[oc s1]|] eqn:En; [|discriminate].
+  apply null_move_K in En; [|exact Hk].
+  destruct oc as [cut|].
+  - apply some_pair_snd in H. rewrite <- H. exact En.
+  - destruct (n_loop rec p in_chk beta ply depth (sort_n p (legal_moves p) ttm) 0 s1 alpha (- INF) None) as [r|] eqn:El; [|discriminate].
+    apply n_loop_K in El; [|exact Hk]. apply nm_finish_K in H.
+    eapply K_trans; [exact En|]. eapply K_trans; eassumption.
+Qed.
+
+Lemma nm_prune_K rec qrec p s ao alpha beta ply depth in_chk is_root is_pv cn ttm v s' : keepsK rec ->
+  (forall c st a b pl v st', qrec c st a b pl = Some (v, st') -> st_depth st' = st_depth st) ->
+  nm_prune stopf rec qrec p s ao alpha beta ply depth in_chk is_root is_pv cn ttm = Some (v, s') -> K s s'.
+Proof.
+  intros Hk Hq H. unfold nm_prune in H.
+  destruct (depth <=? 0).
+  - destruct (qrec p (ss_stats s) alpha beta ply) as [[v0 st]|] eqn:E; [|discriminate].
+    apply Hq in E. apply some_pair_snd in H. rewrite <- H. split; [reflexivity|exact E].
+  - destruct (stopf (ss_stats s) && negb (is_root && (st_depth (ss_stats s) <=? 1))).
+    { apply some_pair_snd in H. rewrite <- H. apply K_refl. }
+    cbv zeta in H.
+    destruct (((100 <=? halfmoves p) || _) && negb is_root).
+    { apply some_pair_snd in H. rewrite <- H. apply K_refl. }
+    destruct (negb is_pv && negb in_chk && (depth <? RFP_DEPTH) && _).
+    { apply some_pair_snd in H. rewrite <- H. apply K_refl. }
+    apply nm_moves_K in H; assumption.
+Qed.
+
+Lemma nm_body_K rec qrec p s alpha beta ply depth cn v s' : keepsK rec ->
+  (forall c st a b pl v st', qrec c st a b pl = Some (v, st') -> st_depth st' = st_depth st) ->
+  nm_body stopf rec qrec p s alpha beta ply depth cn = Some (v, s') -> K s s'.
+Proof.
+  intros Hk Hq H. unfold nm_body in H. cbv zeta in H.
+  match type of H with match ?x with _ => _ end = _ => destruct x as [tte|]; [|discriminate] end.
+  unfold nm_probe in H. cbv zeta in H.
+  match type of H with (if ?c then _ else _) = _ => destruct c end.
+  { apply some_pair_snd in H. rewrite <- H. split; reflexivity. }
+  match type of H with (if ?c then _ else _) = _ => destruct c end.
+  { apply some_pair_snd in H. rewrite <- H. split; reflexivity. }
+  apply nm_prune_K in H; [|exact Hk|exact Hq]. destruct H as [H1 H2]. split; [exact H1|exact H2].
+Qed.
+
+Theorem negamax_K : forall fuel, keepsK (negamax stopf fuel).
+Proof.
+  induction fuel as [|f IH]; intros p s a b ply d cn v s' H; [discriminate|].
+  cbn [negamax] in H. apply nm_body_K in H; [exact H|exact IH|apply qsearch_depth].
+Qed.
+
+(* ---- shape of the root loop: iterations are reported in order without gaps, the answer is the move of the last
+   reported principal variation, and the table keeps its length *)
+Fixpoint consecutive (d : Z) (l : list Info) : Prop :=
+  match l with [] => True | i :: t => i_depth i = d /\ consecutive (d + 1) t end.
+
+Lemma root_loop_shape : forall n fuel p depth s best infos r,
+  root_loop stopf n fuel p depth s best infos = Some r ->
+  exists new, rr_infos r = rev infos ++ new
+    /\ consecutive depth new
+    /\ (rr_best r = None \/ rr_best r = match rev new with [] => best | i :: _ => Some (i_pv i) end)
+    /\ t_len (ss_tt (rr_state r)) = t_len (ss_tt s).
+Proof.
+  induction n as [|n IH]; intros fuel p depth s best infos r H; cbn [root_loop] in H.
+  - injection H as <-. exists []. cbn. rewrite app_nil_r. auto.
+  - destruct (MAX_DEPTH <=? depth); [injection H as <-; exists []; cbn; rewrite app_nil_r; auto|].
+    match type of H with match ?x with _ => _ end = _ => destruct x as [[score s1]|] eqn:E; [|discriminate] end.
+    apply negamax_K in E. destruct E as [El Ed]. cbn in El, Ed.
+    destruct (st_best (ss_stats s1)) as [bm|] eqn:Eb.
+    + destruct ((1 <? depth) && stopf (ss_stats s1)); [injection H as <-; exists []; cbn; rewrite app_nil_r; auto|].
+      apply IH in H. destruct H as (new & H1 & H2 & H3 & H4).
+      eexists (_ :: new). split; [|split; [|split]].
+      * rewrite H1. cbn [rev]. rewrite <- app_assoc. reflexivity.
+      * cbn [consecutive i_depth]. split; [exact Ed|exact H2].
+      * destruct H3 as [H3|H3]; [left; exact H3|right]. rewrite H3. cbn [rev].
+        destruct (rev new) as [|i t] eqn:Er; cbn; reflexivity.
+      * rewrite H4. exact El.
+    + injection H as <-. exists []. cbn. rewrite app_nil_r. split; [reflexivity|]. split; [exact I|]. split; [left; reflexivity|exact El].
+Qed.
+
+Theorem root_iterations_in_order fuel p hist tt r :
+  root stopf fuel p hist tt = Some r ->
+  consecutive 1 (rr_infos r)
+  /\ (rr_best r = None \/ rr_best r = match rev (rr_infos r) with [] => None | i :: _ => Some (i_pv i) end)
+  /\ t_len (ss_tt (rr_state r)) = t_len tt.
+Proof.
+  unfold root. intros H. apply root_loop_shape in H. destruct H as (new & H1 & H2 & H3 & H4).
+  cbn in H1. rewrite H1. auto.
+Qed.
+
+End Keep.
+
+(* every reported iteration after the first was reported with the stop predicate false on its own statistics *)
+Section Reported.
+Variable stopf : Stats -> bool.
+
+Definition stats_of_info (i : Info) : Stats := mkStats (i_depth i) (i_seldepth i) (i_nodes i) (Some (i_pv i)).
+
+Lemma root_loop_reported : forall n fuel p depth s best infos r,
+  root_loop stopf n fuel p depth s best infos = Some r ->
+  (forall i, In i infos -> 1 < i_depth i -> stopf (stats_of_info i) = false) ->
+  1 <= depth ->
+  forall i, In i (rr_infos r) -> 1 < i_depth i -> stopf (stats_of_info i) = false.
+Proof.
+  induction n as [|n IH]; intros fuel p depth s best infos r H Hold Hd; cbn [root_loop] in H.
+  - injection H as <-. cbn. intros i Hi. apply Hold. apply in_rev. exact Hi.
+  - destruct (MAX_DEPTH <=? depth); [injection H as <-; cbn; intros i Hi; apply Hold; apply in_rev; exact Hi|].
+    match type of H with match ?x with _ => _ end = _ => destruct x as [[score s1]|] eqn:E; [|discriminate] end.
+    apply negamax_K in E. destruct E as [_ Ed]. cbn in Ed.
+    destruct (st_best (ss_stats s1)) as [bm|] eqn:Eb.
+    + destruct ((1 <? depth) && stopf (ss_stats s1)) eqn:Es; [injection H as <-; cbn; intros i Hi; apply Hold; apply in_rev; exact Hi|].
+      intros i0 Hi0 Hgt0. refine (IH _ _ _ _ _ _ _ H _ _ i0 Hi0 Hgt0); [|lia].
+      intros i [<-|Hi] Hgt; [|apply Hold; assumption].
+      unfold stats_of_info in *. cbn [i_depth i_seldepth i_nodes i_pv] in *.
+      apply andb_false_iff in Es. destruct Es as [Es|Es].
+      * apply Z.ltb_ge in Es. rewrite Ed in Hgt. lia.
+      * destruct (ss_stats s1) as [d sd nn bb]. cbn in *. subst bb. exact Es.
+    + injection H as <-. cbn. intros i Hi. apply Hold. apply in_rev. exact Hi.
+Qed.
+
+Theorem root_reported_not_stopped fuel p hist tt r :
+  root stopf fuel p hist tt = Some r ->
+  forall i, In i (rr_infos r) -> 1 < i_depth i -> stopf (stats_of_info i) = false.
+Proof. unfold root. intros H. apply (root_loop_reported _ _ _ _ _ _ _ _ H); [intros i []|lia]. Qed.
+End Reported.
+
+Corollary nodes_limit_honoured fuel p hist tt n r :
+  root (stop_of (LNodes n)) fuel p hist tt = Some r ->
+  forall i, In i (rr_infos r) -> 1 < i_depth i -> (i_nodes i < n)%N.
+Proof.
+  intros H i Hi Hd. pose proof (root_reported_not_stopped _ _ _ _ _ _ H i Hi Hd) as Hs.
+  cbn in Hs. apply N.leb_gt in Hs. exact Hs.
+Qed.
+
+Corollary depth_limit_honoured fuel p hist tt d r :
+  root (stop_of (LDepth d)) fuel p hist tt = Some r ->
+  forall i, In i (rr_infos r) -> 1 < i_depth i -> i_depth i <= d.
+Proof.
+  intros H i Hi Hd. pose proof (root_reported_not_stopped _ _ _ _ _ _ H i Hi Hd) as Hs.
+  cbn in Hs. apply Z.ltb_ge in Hs. exact Hs.
+Qed.
+
+Corollary root_keeps_table_size (stopf : Stats -> bool) fuel p hist tt r :
+  root stopf fuel p hist tt = Some r -> t_len (ss_tt (rr_state r)) = t_len tt.
+Proof. intros H. apply (root_iterations_in_order stopf fuel p hist tt r H). Qed.
